@@ -89,6 +89,7 @@ func thmCRLF(name, l1, l2 string, k int) {
 	//@ assert fnl(arr(buf.out), 1, len(buf.out)) == 1 + a
 	//@ assert len(g.Name) == a && forall j int :: 0 <= j && j < a ==> g.Name[j] == name[j]
 	//@ assert ftm(arr(buf.out), 2 + a, len(buf.out)) == len(buf.out)
+	//@ assert norun(arr(buf.out), 3 + a, 3 + a + n1) && norun(arr(buf.out), 5 + a + n1, 5 + a + n1 + n2)
 	//@ assert cnt(arr(buf.out), 1 + a, 3 + a) == 0
 	//@ assert cnt(arr(buf.out), 1 + a, 3 + a + n1) == n1
 	//@ assert cnt(arr(buf.out), 1 + a, 5 + a + n1) == n1
@@ -97,15 +98,118 @@ func thmCRLF(name, l1, l2 string, k int) {
 	//@ assert len(g.Sequence) == n1 + n2
 	if 0 <= k && k < n1 {
 		//@ assert buf.out[3 + a + k] == l1[k]
+		//@ assert norun(arr(buf.out), 3 + a, 3 + a + k)
 		//@ assert cnt(arr(buf.out), 1 + a, 3 + a + k) == k
 		//@ assert g.Sequence[k] == l1[k]
 		_ = k
 	}
 	if 0 <= k && k < n2 {
 		//@ assert buf.out[5 + a + n1 + k] == l2[k]
+		//@ assert norun(arr(buf.out), 5 + a + n1, 5 + a + n1 + k)
 		//@ assert cnt(arr(buf.out), 1 + a, 5 + a + n1 + k) == n1 + k
 		//@ assert g.Sequence[n1 + k] == l2[k]
 		_ = k
 	}
 	_, _, _, _, _ = g, err, a, n1, n2
+}
+
+//@ theorem C01.readerRoundtrip2
+//@   props C01
+//@   requires f1 != nil && f2 != nil
+//@   requires forall j int :: 0 <= j && j < len(f1.Name) ==> !nl(f1.Name[j])
+//@   requires forall j int :: 0 <= j && j < len(f1.Sequence) ==> !nl(f1.Sequence[j]) && f1.Sequence[j] != '>'
+//@   requires forall j int :: 0 <= j && j < len(f2.Name) ==> !nl(f2.Name[j])
+//@   requires forall j int :: 0 <= j && j < len(f2.Sequence) ==> !nl(f2.Sequence[j]) && f2.Sequence[j] != '>'
+//@   loop 1
+//@     invariant n == K && (n > 0 ==> e1 == Z1[0].1 && same(g1, Z1[0].0)) && (n > 1 ==> e2 == Z1[1].1 && same(g2, Z1[1].0))
+// The same through the public API: two records written with Write are yielded
+// by Reader as exactly two items, in order, without an error; names byte for
+// byte, sequences of the same length and equal at an arbitrary position k.
+func thmReaderRoundTrip2(f1, f2 *Fasta, k int) {
+	buf := &bytes.Buffer{}
+	f1.Write(buf)
+	f2.Write(buf)
+	n1 := len(f1.Sequence)
+	n2 := len(f2.Sequence)
+	b := 2 + len(f1.Name) + n1 + (n1+79)/80 // start of the second record
+	//@ assert len(buf.out) == b + 2 + len(f2.Name) + n2 + (n2 + 79) / 80
+	//@ assert buf.out[0] == '>' && buf.out[b] == '>' && nl(buf.out[b - 1])
+	//@ assert forall j int :: 0 <= j && j < len(f2.Name) ==> buf.out[b + 1 + j] == f2.Name[j]
+	//@ assert mark(0) && mark(1)
+	//@ assert fe1(arr(buf.out), len(buf.out), 0) == 1 + len(f1.Name)
+	//@ assert fnext(arr(buf.out), len(buf.out), 0) == b
+	//@ assert fpos(arr(buf.out), len(buf.out), 0, 0) == 0
+	//@ assert fpos(arr(buf.out), len(buf.out), 0, 1) == b
+	//@ assert fe1(arr(buf.out), len(buf.out), b) == b + 1 + len(f2.Name)
+	//@ assert fnext(arr(buf.out), len(buf.out), b) == len(buf.out)
+	//@ assert fpos(arr(buf.out), len(buf.out), 0, 2) == len(buf.out)
+	var g1, g2 *Fasta
+	var e1, e2 error
+	n := 0
+	for f, err := range Reader(buf) {
+		if n == 0 {
+			g1, e1 = f, err
+		}
+		if n == 1 {
+			g2, e2 = f, err
+		}
+		n++
+	}
+	//@ assert len(Z1) > 2 ==> Z1[2].1 == nil
+	//@ assert len(Z1) <= 2
+	//@ assert n >= 1 && n >= 2
+	//@ assert n == 2
+	//@ assert e1 == nil && e2 == nil && g1 != nil && g2 != nil
+	//@ assert len(g1.Name) == len(f1.Name) && forall j int :: 0 <= j && j < len(f1.Name) ==> g1.Name[j] == f1.Name[j]
+	//@ assert len(g2.Name) == len(f2.Name)
+	//@ assert len(g2.Name) == len(f2.Name) && forall j int :: 0 <= j && j < len(f2.Name) ==> g2.Name[j] == f2.Name[j]
+	//@ assert len(g1.Sequence) == n1 && len(g2.Sequence) == n2
+	_, _, _, _, _, _, _, _ = g1, g2, e1, e2, n1, n2, b, k
+}
+
+//@ theorem C01.readerRoundtrip
+//@   props C01
+//@   requires f != nil
+//@   requires forall j int :: 0 <= j && j < len(f.Name) ==> !nl(f.Name[j])
+//@   requires forall j int :: 0 <= j && j < len(f.Sequence) ==> !nl(f.Sequence[j]) && f.Sequence[j] != '>'
+//@   loop 1
+//@     snapshot B0 := buf.out
+//@     invariant n == K && (n > 0 ==> e == Z1[0].1 && same(g, Z1[0].0))
+// One record through the public API, with the sequence content: Write, then
+// Reader yields exactly one item, the same record byte for byte (k arbitrary).
+func thmReaderRoundTrip(f *Fasta, k int) {
+	buf := &bytes.Buffer{}
+	f.Write(buf)
+	//@ assert buf.out[0] == '>' && mark(0)
+	//@ assert fe1(arr(buf.out), len(buf.out), 0) == 1 + len(f.Name)
+	//@ assert fnext(arr(buf.out), len(buf.out), 0) == len(buf.out)
+	//@ assert fpos(arr(buf.out), len(buf.out), 0, 0) == 0
+	//@ assert fpos(arr(buf.out), len(buf.out), 0, 1) == len(buf.out)
+	if 0 <= k && k < len(f.Sequence) {
+		//@ assert buf.out[len(f.Name) + 2 + k + k/80] == f.Sequence[k]
+		//@ assert cnt(arr(buf.out), len(f.Name) + 1, len(f.Name) + 2 + k + k/80) == k
+		//@ assert len(f.Name) + 2 + k + k/80 < len(buf.out) && !nl(buf.out[len(f.Name) + 2 + k + k/80])
+		_ = k
+	}
+	var g *Fasta
+	var e error
+	n := 0
+	for h, err := range Reader(buf) {
+		if n == 0 {
+			g, e = h, err
+		}
+		n++
+	}
+	//@ assert len(Z1) > 1 ==> Z1[1].1 == nil
+	//@ assert len(Z1) <= 1
+	//@ assert n == 1 && e == nil && g != nil
+	//@ assert len(g.Name) == len(f.Name)
+	//@ assert forall j int :: 0 <= j && j < len(f.Name) ==> g.Name[j] == f.Name[j]
+	//@ assert len(g.Sequence) == len(f.Sequence)
+	if 0 <= k && k < len(f.Sequence) {
+		//@ assert g.Sequence[cnt(arr(B0), len(f.Name) + 1, len(f.Name) + 2 + k + k/80)] == B0[len(f.Name) + 2 + k + k/80]
+		//@ assert g.Sequence[k] == f.Sequence[k]
+		_ = k
+	}
+	_, _ = g, e
 }
